@@ -1,7 +1,7 @@
 (** Lemmas about the parser model (C10). *)
 From Coq Require Import ZArith List Bool String Lia.
-From FV Require Import Model.PegSyntax Model.Peg Model.ParserStrings Model.ParserAst Model.ParserActions
-     Model.Parser Gen.Grammar.
+From FV Require Import Model.PegSyntax Model.Peg Model.PegWf Model.ParserStrings Model.ParserAst Model.ParserActions
+     Model.Parser Gen.Grammar Proofs.PegProofs.
 Import ListNotations.
 Open Scope Z_scope.
 
@@ -58,3 +58,28 @@ Lemma grammar_selfcheck :
   /\ compiled_grammar = Some rules
   /\ List.length rules = List.length grammar_rules.
 Proof. vm_compute. repeat split; reflexivity. Qed.
+
+(** ** Well-formedness of the generated grammar and termination of the parser model *)
+Lemma grammar_check_wf : check_wf rules nullable_tbl rank_tbl = true.
+Proof. vm_compute. reflexivity. Qed.
+
+Lemma depth_unit_small : (depth_unit rules rank_tbl <=? 4000)%nat = true.
+Proof. vm_compute. reflexivity. Qed.
+
+Lemma parser_never_out_of_fuel : forall input : bytes, parse_text input <> PFuel.
+Proof.
+  intros input. unfold parse_text, parse_with, p_parse.
+  apply (wf_parse_total action val aerr VNil VBytes VList run_action rules nullable_tbl rank_tbl grammar_check_wf).
+  pose proof depth_unit_small as Hd. apply Nat.leb_le in Hd.
+  unfold fuel_for, depth_per_byte.
+  assert (Z.to_nat ((Z.of_nat (List.length input) + 1) * 4000) = (S (List.length input) * 4000)%nat) as -> by lia.
+  nia.
+Qed.
+
+Lemma grammar_wf_and_total :
+  check_wf rules nullable_tbl rank_tbl = true /\ forall input : bytes, parse_idl input <> PNoFuel.
+Proof.
+  split; [exact grammar_check_wf|].
+  intros input. unfold parse_idl. pose proof (parser_never_out_of_fuel input) as H.
+  destruct (parse_text input) as [[v|es]|]; cbn; [destruct v; discriminate | discriminate | congruence].
+Qed.
